@@ -80,6 +80,67 @@ theorem runM_func {V : Type} (w : World (SM σ) V) (f : Func) (args : Locals V) 
     cases c <;> rfl
 
 
+/-- a `for` loop run statement by statement: if one pass of the body on an element `x` of the list in state `st` either
+falls through in the state `step x st` (keeping the invariant on the locals) or raises when `step x st` is `none`, the
+loop is the fold of `step` over the elements, and raises as soon as a pass does -/
+theorem runM_forLoop {V : Type} (Inv : Locals V → Prop) (step : V → σ → Option σ)
+    (body : Locals V → V → SM σ (Ctl V × Locals V)) :
+    ∀ (xs : List V) (loc : Locals V) (st : σ),
+      (∀ loc x st, x ∈ xs → Inv loc →
+        match step x st with
+        | some st' => ∃ loc', runM (body loc x) st = (.ok (.next, loc'), st') ∧ Inv loc'
+        | none => ∃ e st', runM (body loc x) st = (.error e, st')) →
+      Inv loc →
+      match xs.foldlM (fun st x => step x st) st with
+      | some st' => ∃ loc', runM (forLoop body xs loc) st = (.ok (.next, loc'), st') ∧ Inv loc'
+      | none => ∃ e st', runM (forLoop body xs loc) st = (.error e, st')
+  | [], loc, st, _, hinv => by
+    simp only [List.foldlM_nil, forLoop]
+    exact ⟨loc, rfl, hinv⟩
+  | x :: xs, loc, st, hbody, hinv => by
+    have hb := hbody loc x st (List.mem_cons_self) hinv
+    simp only [List.foldlM_cons, forLoop, runM_bind]
+    cases hs : step x st with
+    | none =>
+      rw [hs] at hb
+      obtain ⟨e, st', he⟩ := hb
+      simp only [Option.bind_eq_bind, Option.bind_none, he]
+      exact ⟨e, st', rfl⟩
+    | some st1 =>
+      rw [hs] at hb
+      obtain ⟨loc1, h1, hinv1⟩ := hb
+      simp only [Option.bind_eq_bind, Option.bind_some, h1]
+      exact runM_forLoop Inv step body xs loc1 st1
+        (fun loc y st hy => hbody loc y st (List.mem_cons_of_mem _ hy)) hinv1
+
+/-- final state of a run that did not raise -/
+def stOut {α : Type} (r : Except String α × σ) : Option σ := match r.1 with | .ok _ => some r.2 | .error _ => none
+
+/-- `runM_forLoop` as an equation (what the loop leaves in the locals is forgotten) -/
+theorem stOut_forLoop {V : Type} (Inv : Locals V → Prop) (step : V → σ → Option σ)
+    (body : Locals V → V → SM σ (Ctl V × Locals V)) (xs : List V) (loc : Locals V) (st : σ)
+    (hbody : ∀ loc x st, x ∈ xs → Inv loc →
+      match step x st with
+      | some st' => ∃ loc', runM (body loc x) st = (.ok (.next, loc'), st') ∧ Inv loc'
+      | none => ∃ e st', runM (body loc x) st = (.error e, st'))
+    (hinv : Inv loc) :
+    stOut (runM (forLoop body xs loc) st) = xs.foldlM (fun st x => step x st) st := by
+  have h := runM_forLoop Inv step body xs loc st hbody hinv
+  cases hf : xs.foldlM (fun st x => step x st) st with
+  | none => rw [hf] at h; obtain ⟨e, st', he⟩ := h; simp [stOut, he]
+  | some st' => rw [hf] at h; obtain ⟨loc', he, _⟩ := h; simp [stOut, he]
+
+/-- a function whose body is one statement that does not return a value early -/
+theorem stOut_func_single {V : Type} (w : World (SM σ) V) (params : List String) (s : Stmt) (args : Locals V) (st : σ) :
+    stOut (runM (Func.run w ⟨params, [s]⟩ args) st) = stOut (runM (evalStmt w args s) st) := by
+  rw [runM_func, runM_block_cons]
+  rcases runM (evalStmt w args s) st with ⟨r, st'⟩
+  cases r with
+  | error e => rfl
+  | ok cl =>
+    rcases cl with ⟨c, loc'⟩
+    cases c <;> simp [stOut]
+
 /-! ### the same for functions without object state, evaluated in `Except String` -/
 
 @[simp] theorem exc_pure {ε α : Type} (a : α) : (pure a : Except ε α) = .ok a := rfl
